@@ -50,3 +50,27 @@ Definition check_f32 (acc : N -> N -> bool) (segs : list segment) (corpus : segm
 (* a single phrase on a single document: Some matched / None = out of fuel *)
 Definition phrase_doc (sc : bool) (toks : list N) (ts : list (Z * N)) (slop : N) : option bool :=
   phrase_match sc slop (phrase_lists toks ts).
+
+(* ---- exists over the columns read back from a segment (Query/Exists.v) *)
+From TV Require Import Query.Exists.
+
+Definition card_of (k : N) : cardinality :=
+  match k with 0 => CardEmpty | 1 => CardFull | 2 => CardOptional | _ => CardMultivalued end.
+
+Definition column_wf_b (ids : list N) (c : column) : bool :=
+  match fst c with
+  | CardEmpty => is_nil (snd c)
+  | CardFull => forallb (fun i => mem i (snd c)) ids
+  | _ => true
+  end.
+
+(* cols: (index kind, docs with a value) of every column the query expands to, as read from the segment;
+   scorer_docs: the documents of ExistsWeight::scorer on that segment (deleted ones included).
+   (1) the columns are well-formed, (2) the model of the scorer returns the scorer's documents,
+   (3) the columns represent the documents: hypothesis of exists_scorer_meets_leaf_contract. *)
+Definition check_exists_cols (seg : segment) (fs : list N) (cols : list (N * list N)) (scorer_docs : list N) : bool :=
+  let cs := map (fun c => (card_of (fst c), snd c)) cols in
+  let ids := seg_ids seg in
+  forallb (column_wf_b ids) cs
+  && list_eqb N.eqb (filter (dmem (exists_scorer (max_doc seg) true cs)) ids) scorer_docs
+  && forallb (fun i => Bool.eqb (existsb (fun c => mem i (snd c)) cs) (existsb (has_value (doc_at seg i)) fs)) ids.
